@@ -123,6 +123,18 @@ Ltac unbool :=
          | H : negb _ = false |- _ => apply negb_false_iff in H
          end.
 
+(* generated checks against the model's, one at a time: both refuse with the same exception, or both go on;
+   the two conditions need not be spelled alike, only be equivalent (lia decides) *)
+Ltac lockstep :=
+  match goal with
+  | |- rmap _ (if ?c then _ else _) = cv _ (if ?m then _ else _) =>
+      destruct c eqn:?, m eqn:?;
+      [ reflexivity
+      | exfalso; first [discriminate | rewrite ?Z.gtb_ltb, ?Z.geb_leb in *; lia]
+      | exfalso; first [discriminate | rewrite ?Z.gtb_ltb, ?Z.geb_leb in *; lia]
+      | ]
+  end.
+
 (* ================================================================ enumerations *)
 
 (* member names, values and order of definition (the values are what callers pass as strings) *)
@@ -180,9 +192,10 @@ Theorem tie_csr_init : forall aw dw,
 Proof.
   intros aw dw. unfold gen_csr_Signature_init, mk_csr.
   destruct aw as [a| |]; cbn [is_int zof negb orb]; try reflexivity.
-  destruct (a <=? 0); cbn [rmap cv]; [destruct dw; reflexivity|].
-  destruct dw as [d| |]; cbn [is_int zof negb orb rmap]; try reflexivity.
-  destruct (d <=? 0); reflexivity.
+  destruct dw as [d| |]; cbn [is_int zof negb orb].
+  - repeat lockstep. reflexivity.
+  - split_if; reflexivity.
+  - split_if; reflexivity.
 Qed.
 Print Assumptions tie_csr_init.
 
@@ -253,7 +266,7 @@ Theorem tie_elem_init : forall w a,
 Proof.
   intros w a. unfold gen_csr_Element_Signature_init, mk_elem, acc_arg, arg_of.
   destruct w as [z| |]; cbn [is_int zof negb orb]; try reflexivity.
-  destruct (z <? 0); cbn [rmap cv]; [reflexivity|]. cbv zeta.
+  lockstep. cbv zeta.
   destruct (csr_Element_Access_call a) as [e|x] eqn:E; cbn [bind rmap cv id].
   - reflexivity.
   - apply enum_call_err in E. subst x. reflexivity.
@@ -432,34 +445,10 @@ Theorem tie_wb_init : forall aw dw gran fs,
 Proof.
   intros aw dw gran fs. unfold gen_wishbone_Signature_init, mk_wb. cbv zeta.
   destruct aw as [a| |]; cbn [is_int zof negb orb]; try reflexivity.
-  destruct (a <? 0) eqn:Ea; cbn [rmap cv].
-  { destruct dw as [d| |], gran as [g| |]; reflexivity. }
-  assert (W : forall d g, rmap abs_wb
-      (if negb (pyint_in (VInt d) [8; 16; 32; 64]) then Err ValueError
-       else if negb (pyint_in (VInt g) [8; 16; 32; 64]) then Err ValueError
-       else if zof (VInt g) >? zof (VInt d) then Err ValueError
-       else let! fset := mapR (fun a => wishbone_Feature_call a) fs in
-            Ok {| wishbone_Signature__addr_width := a; wishbone_Signature__data_width := d;
-                  wishbone_Signature__features := fset; wishbone_Signature__granularity := g;
-                  wishbone_Signature_members := [] |}) =
-      cv id (if negb (wb_width_ok d) then MW.Err MW.ValueError
-             else if negb (wb_width_ok g) then MW.Err MW.ValueError
-             else if d <? g then MW.Err MW.ValueError
-             else if feats_bad fs then MW.Err MW.ValueError
-             else MW.Ok (SWb {| w_addr_width := a; w_data_width := d; w_granularity := g;
-                                    w_features := feats_of (feats_list fs) |}))).
-  { intros d g. cbn [pyint_in zof]. fold (z_in d [8; 16; 32; 64]). fold (z_in g [8; 16; 32; 64]).
-    rewrite !width_in_ok, Z.gtb_ltb, features_mapR.
-    destruct (wb_width_ok d), (wb_width_ok g), (d <? g), (feats_bad fs); reflexivity. }
-  destruct dw as [d| |]; cbn [pyint_in negb rmap]; try reflexivity.
-  - destruct gran as [g| |]; cbn [is_none gran_arg].
-    + rewrite <- (W d g). clear W. cbn [pyint_in zof].
-      repeat (split_if; [reflexivity|]).
-      destruct (mapR _ fs); reflexivity.
-    + rewrite <- (W d d). clear W. cbn [pyint_in zof].
-      repeat (split_if; [reflexivity|]).
-      destruct (mapR _ fs); reflexivity.
-    + cbn [pyint_in negb]. split_if; reflexivity.
+  destruct dw as [d| |], gran as [g| |]; cbn [is_none zof pyint_in existsb gran_arg negb]; unfold wb_width_ok;
+    try (repeat split_if; try reflexivity; exfalso; lia).
+  - repeat lockstep. rewrite features_mapR. destruct (feats_bad fs); reflexivity.
+  - repeat lockstep. rewrite features_mapR. destruct (feats_bad fs); reflexivity.
 Qed.
 Print Assumptions tie_wb_init.
 
@@ -594,7 +583,7 @@ Theorem tie_memory_map_init : forall aw dw al,
   else if negb (is_int al) || (zof al <? 0) then Err ValueError
   else Ok (zof aw, zof dw, zof al).
 Proof.
-  intros aw dw al. unfold gen_memory_MemoryMap_init. repeat (split_if; [reflexivity|]). reflexivity.
+  intros aw dw al. unfold gen_memory_MemoryMap_init. repeat split_if; try reflexivity; exfalso; lia.
 Qed.
 Print Assumptions tie_memory_map_init.
 
@@ -800,6 +789,13 @@ Proof.
 Qed.
 Print Assumptions tie_arb_ports.
 
+(* `if x is None: x = default`, however the generated text spells it: name the resulting pyint expression *)
+Ltac grab_default v :=
+  match goal with
+  | |- context [?t] =>
+      lazymatch type of t with pyint => lazymatch t with context [is_none] => set (v := t) end end
+  end.
+
 (* ---------------------------------------------------------------- wishbone.Decoder *)
 
 (* data_width // granularity of an accepted signature is 1, 2, 4 or 8 *)
@@ -820,10 +816,10 @@ Theorem tie_wbdec_ports : forall a d gran fs al, gran_ok gran ->
   end.
 Proof.
   intros a d gran fs al G. unfold gen_wishbone_Decoder_init, wbdec_bus. cbv zeta.
-  set (g2 := if is_none gran then VInt d else gran).
+  grab_default g2.
   assert (G2 : exists g', g2 = VInt g' /\ g' = match gran_arg gran with Some x => x | None => d end).
-  { destruct gran; try contradiction; cbn; eauto. }
-  destruct G2 as (g' & -> & Eg). rewrite <- Eg. clear Eg G gran.
+  { subst g2. destruct gran; try contradiction; cbn; eauto. }
+  clearbody g2. destruct G2 as (g' & -> & Eg). rewrite <- Eg. clear Eg G gran.
   destruct (gen_wishbone_Signature_init _ _ _ _) as [s|e] eqn:E; cbn [bind rmap].
   - pose proof (wb_init_ok _ _ (VInt g') _ _ I E) as M. destruct (wb_create_ok _ _ (VInt g') _ _ I E) as (x & C & Ax).
     cbn [gran_arg] in M. rewrite M, C. cbn [bind MW.bind zof].
@@ -877,10 +873,10 @@ Theorem tie_sram_ports : forall size d gran, gran_ok gran ->
   cv (fun p => ([("wb_bus", AIface p [])], signature_of_port p)) (sram_bus size d (gran_arg gran)).
 Proof.
   intros size d gran G. unfold gen_wishbone_sram_WishboneSRAM_init, sram_bus. cbv zeta.
-  set (g2 := if is_none gran then VInt d else gran).
+  grab_default g2.
   assert (G2 : exists g', g2 = VInt g' /\ g' = match gran_arg gran with Some x => x | None => d end).
-  { destruct gran; try contradiction; cbn; eauto. }
-  destruct G2 as (g' & -> & Eg). rewrite <- Eg. clear Eg G gran.
+  { subst g2. destruct gran; try contradiction; cbn; eauto. }
+  clearbody g2. destruct G2 as (g' & -> & Eg). rewrite <- Eg. clear Eg G gran.
   cbn [zof pyint_in opaque_step bind]. fold (z_in d [8; 16; 32; 64]). fold (z_in g' [8; 16; 32; 64]).
   rewrite pow2_check, !width_in_ok.
   destruct (is_pow2 size) eqn:P; cbn [negb]; [|reflexivity].
@@ -928,10 +924,10 @@ Proof.
   cbn [fst snd]. fold caw cdw.
   replace (negb (negb (fst (if fl then (negb fl, i) else (fl, i))))) with false by (destruct fl; reflexivity).
   rewrite width_in_ok. destruct (wb_width_ok cdw) eqn:Pc; cbn [negb]; [|reflexivity].
-  set (d5 := if is_none dw then VInt cdw else dw).
+  grab_default d5.
   assert (D : exists d, d5 = VInt d /\ d = match gran_arg dw with Some x => x | None => cdw end).
-  { destruct dw; try contradiction; cbn; eauto. }
-  destruct D as (d & -> & Ed). rewrite <- Ed. clear Ed G dw. cbn [zof].
+  { subst d5. destruct dw; try contradiction; cbn; eauto. }
+  clearbody d5. destruct D as (d & -> & Ed). rewrite <- Ed. clear Ed G dw. cbn [zof].
   unfold exact_log2 at 1, MW.exact_log2 at 1.
   destruct (is_pow2 (d / cdw)) eqn:P; cbn [bind MW.bind]; [|reflexivity].
   set (k := Z.log2 (d / cdw)).
@@ -1055,9 +1051,12 @@ Proof.
   destruct (monitor_src (trg_arg t)) as [ps|e] eqn:Ms; [|discriminate X].
   apply Ok_inj, pair_inj in X. destruct X as [_ Xs].
   cbv zeta. cbn [opaque_step bind MW.bind].
-  set (aw := 1 + Z.max (ceil_log2 ((n + d - 1) / d)) al).
-  change (evmon_addr_width n d al) with aw.
-  assert (Paw : 0 < aw) by (pose proof (ceil_log2_nonneg ((n + d - 1) / d)); lia).
+  match goal with |- context [gen_memory_MemoryMap_init (VInt ?x) _ _] => set (aw := x) end.
+  assert (Eaw : evmon_addr_width n d al = aw) by (subst aw; unfold evmon_addr_width; lia).
+  rewrite Eaw.
+  assert (Paw : 0 < aw).
+  { rewrite <- Eaw. unfold evmon_addr_width. pose proof (ceil_log2_nonneg ((n + d - 1) / d)). lia. }
+  clearbody aw.
   destruct (mm_init_ok (VInt aw) (VInt d) (VInt al)) as (m & Hm & M1 & M2 & _).
   { unfold mm_bad. cbn [is_int zof negb orb]. lia. }
   rewrite Hm. cbn [bind].
